@@ -1548,7 +1548,7 @@ func (self *BinaryServerProtocol) ProcessLockResultCommand(command *protocol.Loc
 		}
 
 		self.slock.clientsGlock.Lock()
-		if serverProtocol, ok := self.slock.clients[self.proxys[0].clientId]; ok {
+		if serverProtocol, ok := self.slock.clients[self.proxys[0].clientId]; ok && serverProtocol != self {
 			self.slock.clientsGlock.Unlock()
 			return serverProtocol.ProcessLockResultCommandLocked(command, result, lcount, lrcount, data)
 		}
